@@ -278,6 +278,38 @@ fn check(ctx: &Ctx) -> i32 {
         let items = [(cat_b[(i / (ne * nm)) as usize], false), (cat_e[((i / nm) % ne) as usize], false), (cat_m[(i % nm) as usize], false)];
         vh::netsweep::check_list("c01", &items, &reqs, l, false, true);
     });
+    // the rule cube: every (pattern shape, option set, exception?) cell alone, and next to each of
+    // a few partner rules that change which token the cell is filed under or share its bucket
+    let np = alpha::CUBE_PATTERNS.len() as u64;
+    let no = alpha::CUBE_OPTIONS.len() as u64;
+    let partners: [Option<&'static str>; 8] = [None, Some("ads"), Some("/foo/bar"), Some("||ads.net^"), Some("@@||ads.net^$script"), Some("*$removeparam=utm"), Some("||example.com^$important"), Some("@@bar")];
+    ctx.bound("cube", serde_json::json!({"patterns": np, "option_sets": no, "exception": 2, "partners": partners.len()}));
+    ctx.par_range("rule cube", np * no * 2 * partners.len() as u64, 4, |i, l| {
+        let p = (i % np) as usize;
+        let o = ((i / np) % no) as usize;
+        let exc = (i / np / no) % 2 == 1;
+        let partner = partners[(i / np / no / 2) as usize];
+        let rule = match alpha::cube_rule(p, o, exc) {
+            Some(r) => r,
+            None => return,
+        };
+        let mut items: Vec<(&str, bool)> = vec![(rule.as_str(), false)];
+        if let Some(q) = partner {
+            if q == rule {
+                return;
+            }
+            // the partner once before and once after the cell (ids and insertion order differ)
+            if (p + o) % 2 == 0 {
+                items.insert(0, (q, false));
+            } else {
+                items.push((q, false));
+            }
+        }
+        if l.samples.len() < 2 && (i + ctx.seed) % 1013 == 5 {
+            l.samples.push(serde_json::json!({"cube_cell": rule, "partner": partner}));
+        }
+        vh::netsweep::check_list("c01.cube", &items, &reqs, l, false, true);
+    });
     // bucket forcing: every rule of the pool, stored under each of its indexable tokens in turn
     let forced: Vec<(&'static str, String, Vec<String>)> = alpha::R_NET.iter().flat_map(|r| forced_lists(r).into_iter().map(move |(t, l)| (*r, t, l))).collect();
     ctx.bound("bucket_forcing_lists", forced.len());
@@ -314,7 +346,7 @@ fn check(ctx: &Ctx) -> i32 {
     }
     ctx.finish(
         "model_checking",
-        "all ordered lists without repetition of <= k rules of the pool (R_net + 2 hosts lines), every (blocking rule, exception, modifier rule) triple of it, each built into a real engine (no optimisation), under every subset of the tags the list mentions, against every request of U_net x (initiator,type); plus bucket forcing (every pool rule with two filler rules per other indexable token, so that the rule is stored under each of its tokens in turn) and a corpus sweep (3 613 real rules from EasyList / uBO / Brave lists, frozen under harness/corpus, loaded as one list, against URLs derived from every rule by a fixed procedure x initiators x types); non-trivial = at least one rule of the list matches the request per the public matcher; states = engines built, transitions = requests checked, each compared field by field (matched, important, exception, redirect, rewritten URL, CSP set) with the reference combiner",
+        "all ordered lists without repetition of <= k rules of the pool (R_net + 2 hosts lines), every (blocking rule, exception, modifier rule) triple of it, every cell of the rule cube (pattern shapes x option sets x exception) alone and next to 7 partner rules, each built into a real engine (no optimisation), under every subset of the tags the list mentions, against every request of U_net x (initiator,type); plus bucket forcing (every pool rule with two filler rules per other indexable token, so that the rule is stored under each of its tokens in turn) and a corpus sweep (3 613 real rules from EasyList / uBO / Brave lists, frozen under harness/corpus, loaded as one list, against URLs derived from every rule by a fixed procedure x initiators x types); non-trivial = at least one rule of the list matches the request per the public matcher; states = engines built, transitions = requests checked, each compared field by field (matched, important, exception, redirect, rewritten URL, CSP set) with the reference combiner",
         &[
             "per-rule match = the public NetworkFilter::matches on the parsed rule (differential); precedence, badfilter, tags, redirect choice, removeparam and CSP come from the independent reference",
             "no 64-bit seahash collision among the strings of the alphabets (checked at start-up)",
